@@ -56,7 +56,12 @@ def canonicalize_url(
 
     # Path normalization
     if path and path != "/":
+        trailing_slash = path.endswith(("/", "/.", "/.."))
         path = normpath(path)
+
+        # NOTE: a trailing slash is part of the resource's name
+        if trailing_slash and path:
+            path += "/"
 
     # Empty path etc.
     if not path or path == "/":
